@@ -288,7 +288,7 @@ def join_lines(text):
         s = ln.strip()
         if buf is not None:
             buf += " " + s
-            if s == ']' or s.endswith(']') and not s.startswith('i'):
+            if s == ']' or s.startswith('], !') or s.endswith(']') and not s.startswith('i'):   # '], !dbg !N' closes a switch when debug locations are present
                 out.append(buf); buf = None
             continue
         if s.startswith('switch ') and s.endswith('['):
